@@ -288,6 +288,18 @@ def check_types(case, ctx):
         ctx.require(int(jt) == jj, name + ':argument-modified', '%s changed the caller\'s index object from %d to %r' % (name, jj, jt))
         got2 = ctx.call(fn, jt)
         ctx.require(_eq(got2, ref(jj)), name + ':second-lookup', 'looking the same index object up twice gives %r then %r' % (got, got2))
+    # unsigned numpy integers (an index taken from np.arange(..., dtype=np.uint16), a 0-d unsigned array): fringe_to_nm and xy_j_to_mn accept them
+    # on the unchanged tree (observed); noll_to_nm / ansi_j_to_nm do integer arithmetic in the caller's dtype and are documented for `int` only, so
+    # nothing is asserted for those two
+    import numpy as np
+    ut = [np.uint8, np.uint16, np.uint32, np.uint64][(n + j) % 4]
+    ju = 1 + (j % 200 if ut is np.uint8 else j % 60000)
+    for name, fn, ref in (('fringe_to_nm', P.fringe_to_nm, ref_fringe), ('xy_j_to_mn', xy_j_to_mn, ref_xy)):
+        for form in ('scalar', '0d'):
+            jt = ut(ju) if form == 'scalar' else np.array(ju, dtype=ut)
+            got = ctx.call(fn, jt)
+            ctx.require(_eq(got, ref(ju)), name + ':unsigned', '%s(%s %s(%d)) = %r, reference %r' % (name, form, ut.__name__, ju, got, ref(ju)))
+    ctx.label('unsigned:' + ut.__name__)
 
 # ---- call sequences: siblings interleaved, requests that fail in between --------------------------------------------------------------
 def strat_sequences(tier):
@@ -392,6 +404,25 @@ def check_sequences(case, ctx):
     ctx.label('mistaken-requests:%d' % min(njunk, 3), 'raised:%d' % min(nraise, 3), 'ops:%s' % ('<6' if len(case['ops']) < 6 else '>=6'))
 
 
+def _with_prec(strat):
+    def f(tier):
+        return st.tuples(strat(tier), st.sampled_from([64, 64, 32])).map(lambda t: dict(t[0], prec=t[1]))
+    return f
+
+
+def _at_precision(inner):
+    """prysm.conf.config.precision (32 / 64) is part of the environment of every call; an index map does not depend on it"""
+    def check(case, ctx):
+        prec = case.get('prec', 64)
+        if prec != 64:
+            ctx.label('config.precision=32')
+        from vlib import util as U_
+        with U_.precision(prec):
+            inner(case, ctx)
+    check.__doc__ = inner.__doc__
+    return check
+
+
 CLAUSES = [
     EnumClause('noll_blocks', enum_blocks('noll', {'quick': 100000, 'thorough': 2000000}), check_block),
     EnumClause('fringe_blocks', enum_blocks('fringe', {'quick': 100000, 'thorough': 2000000}), check_block),
@@ -399,7 +430,7 @@ CLAUSES = [
     EnumClause('xy_blocks', enum_blocks('xy', {'quick': 20000, 'thorough': 200000}), check_block),
     EnumClause('inverse_rows', enum_inverse, check_inverse),
     EnumClause('published_tables', enum_xy_table, check_tables, shards={'quick': 2, 'thorough': 2}),
-    HypClause('argument_types', strat_types, check_types, examples={'quick': 600, 'thorough': 4000}, shards={'quick': 2, 'thorough': 8}),
-    HypClause('call_sequences', strat_sequences, check_sequences, examples={'quick': 800, 'thorough': 5000}, shards={'quick': 4, 'thorough': 16}),
-    HypClause('targeted_large', strat_targeted, check_targeted, examples={'quick': 300, 'thorough': 1500}, shards={'quick': 4, 'thorough': 16}),
+    HypClause('argument_types', _with_prec(strat_types), _at_precision(check_types), examples={'quick': 600, 'thorough': 4000}, shards={'quick': 2, 'thorough': 8}),
+    HypClause('call_sequences', _with_prec(strat_sequences), _at_precision(check_sequences), examples={'quick': 800, 'thorough': 5000}, shards={'quick': 4, 'thorough': 16}),
+    HypClause('targeted_large', _with_prec(strat_targeted), _at_precision(check_targeted), examples={'quick': 300, 'thorough': 1500}, shards={'quick': 4, 'thorough': 16}),
 ]
